@@ -1,7 +1,7 @@
 (* C02 property theorems: statements only, each closed by `exact`, with Print Assumptions.
    Vocabulary (Proofs1): qget A i j = entry (0 outside), offnn n A = all off-diagonal entries of the n x n block are >= 0,
    sumr a len f = f a + ... + f (a+len-1), qsum l = sum of the list. gthQ = the loop model _gth_solve_jit at exact Q. *)
-From Coq Require Import ZArith QArith List Bool Arith.
+From Coq Require Import ZArith QArith List Bool Arith Relations.
 From QE Require Import Base.Num C02.Model C02.Proofs.
 Import ListNotations.
 Open Scope Q_scope.
@@ -40,35 +40,39 @@ Proof.
 Qed.
 Print Assumptions C02_gth_generator.
 
+(* irreducible input (the positive off-diagonal entries connect every pair of states): every component is > 0 *)
+Theorem C02_gth_positive_irreducible : forall n A, (1 <= n)%nat -> offnn n A ->
+  (forall i j, (i < n)%nat -> (j < n)%nat ->
+     clos_refl_trans nat (fun a b => (a < n)%nat /\ (b < n)%nat /\ a <> b /\ 0 < qget A a b) i j) ->
+  forall i, (i < n)%nat -> 0 < nth i (gthQ n A) 0.
+Proof. exact gth_pos_irreducible. Qed.
+Print Assumptions C02_gth_positive_irreducible.
+
 (* MarkovChain._compute_stationary over Q, classes from the C03 specification model on the positive-entry graph:
    exactly one row per recurrent class; every row has length n, is >= 0, sums to 1, is invariant under P and
-   vanishes outside its class. Partial: strict positivity inside the class (exact support) is not proved. *)
-Theorem C02_stationary_rows_partial : forall n P, (1 <= n)%nat ->
+   is supported EXACTLY on its recurrent class (positive inside, zero outside) *)
+Theorem C02_stationary_rows : forall n P, (1 <= n)%nat ->
   (forall i j, (i < n)%nat -> (j < n)%nat -> 0 <= qget P i j) ->
   (forall i, (i < n)%nat -> sumr 0 n (fun l => qget P i l) == 1) ->
   length (stationaryQ n P) = length (C03.Model.sink_spec n (@pos_edge Q NumQ P)) /\
   forall r, In r (stationaryQ n P) -> exists c, In c (C03.Model.sink_spec n (@pos_edge Q NumQ P)) /\
     length r = n /\ Forall (fun v => 0 <= v) r /\ qsum r == 1 /\
     (forall j, (j < n)%nat -> sumr 0 n (fun i => nth i r 0 * qget P i j) == nth j r 0) /\
-    (forall i, (i < n)%nat -> ~ In i c -> nth i r 0 == 0).
-Proof. exact stationary_rows. Qed.
-Print Assumptions C02_stationary_rows_partial.
+    (forall i, (i < n)%nat -> (0 < nth i r 0 <-> In i c)).
+Proof.
+  intros n P Hn Hnn Hr. split; [exact (proj1 (stationary_rows n P Hn Hnn Hr))|].
+  intros r Hin. destruct (stationary_rows_support n P Hn Hnn Hr r Hin) as [c [Hc [[a [b [d [f _]]]] g]]].
+  exists c. repeat split; try assumption; apply g; assumption.
+Qed.
+Print Assumptions C02_stationary_rows.
 
 (* not proved (decided by correspondence + exact Fraction oracle on every run):
-   - support: irreducible => every component > 0; reducible => the support is exactly one recurrent class;
+   - gth_solve on a REDUCIBLE matrix: the support is exactly one recurrent class (which one depends on the numbering);
+   - distinct rows of stationary_distributions belong to distinct classes (true by construction: map over the classes);
    - the floating-point accuracy (component-wise relative error n*1e-13) is measured, not proved. *)
 Definition C02_gth_support_full : Prop := forall n A, (1 <= n)%nat -> offnn n A ->
   exists c, In c (C03.Model.sink_spec n (@pos_edge Q NumQ A)) /\
     forall i, (i < n)%nat -> (0 < nth i (gthQ n A) 0 <-> In i c).
-Definition C02_stationary_rows_full : Prop := forall n P, (1 <= n)%nat ->
-  (forall i j, (i < n)%nat -> (j < n)%nat -> 0 <= qget P i j) ->
-  (forall i, (i < n)%nat -> sumr 0 n (fun l => qget P i l) == 1) ->
-  length (stationaryQ n P) = length (C03.Model.sink_spec n (@pos_edge Q NumQ P)) /\
-  forall r, In r (stationaryQ n P) ->
-    length r = n /\ Forall (fun v => 0 <= v) r /\ qsum r == 1 /\
-    (forall j, (j < n)%nat -> sumr 0 n (fun i => nth i r 0 * qget P i j) == nth j r 0) /\
-    exists c, In c (C03.Model.sink_spec n (@pos_edge Q NumQ P)) /\
-      forall i, (i < n)%nat -> (0 < nth i r 0 <-> In i c).
 
 (* hypotheses are satisfiable: an irreducible stochastic matrix and a reducible one (early exit) *)
 Definition ex_P : list (list Q) := [[1#2; 1#2; 0]; [1#4; 1#2; 1#4]; [0; 1#3; 2#3]].
@@ -83,3 +87,20 @@ Proof.
 Qed.
 Example ex_gth : gthQ 3 ex_P = [2#9; 4#9; 1#3] /\ gthQ 3 [[0; 1#2; 1#2]; [0; 1; 0]; [0; 0; 1]] = [0; 1; 0].
 Proof. vm_compute. split; reflexivity. Qed.
+Example ex_irreducible : forall i j, (i < 3)%nat -> (j < 3)%nat ->
+  clos_refl_trans nat (fun a b => (a < 3)%nat /\ (b < 3)%nat /\ a <> b /\ 0 < qget ex_P a b) i j.
+Proof.
+  assert (S01 : clos_refl_trans nat (fun a b => (a < 3)%nat /\ (b < 3)%nat /\ a <> b /\ 0 < qget ex_P a b) 0%nat 1%nat)
+    by (apply rt_step; repeat split; try (apply Nat.ltb_lt; reflexivity); discriminate).
+  assert (S10 : clos_refl_trans nat (fun a b => (a < 3)%nat /\ (b < 3)%nat /\ a <> b /\ 0 < qget ex_P a b) 1%nat 0%nat)
+    by (apply rt_step; repeat split; try (apply Nat.ltb_lt; reflexivity); discriminate).
+  assert (S12 : clos_refl_trans nat (fun a b => (a < 3)%nat /\ (b < 3)%nat /\ a <> b /\ 0 < qget ex_P a b) 1%nat 2%nat)
+    by (apply rt_step; repeat split; try (apply Nat.ltb_lt; reflexivity); discriminate).
+  assert (S21 : clos_refl_trans nat (fun a b => (a < 3)%nat /\ (b < 3)%nat /\ a <> b /\ 0 < qget ex_P a b) 2%nat 1%nat)
+    by (apply rt_step; repeat split; try (apply Nat.ltb_lt; reflexivity); discriminate).
+  intros i j Hi Hj.
+  destruct i as [|[|[|i]]]; [| | |exfalso; apply (Nat.nlt_0_r i); do 3 apply Nat.succ_lt_mono; exact Hi];
+  (destruct j as [|[|[|j]]]; [| | |exfalso; apply (Nat.nlt_0_r j); do 3 apply Nat.succ_lt_mono; exact Hj]);
+  try apply rt_refl; try assumption;
+  try (eapply rt_trans; eassumption).
+Qed.
